@@ -1051,6 +1051,20 @@ func (env *Env) evalCall(x *ECall) SV {
 			}
 		}
 		return SV{And(cs...), types.Typ[types.Bool]}
+	case "implements":
+		// implements(v, "error"): the dynamic type of the interface value v implements the named interface type
+		tn, ok := x.Args[1].(*EStr)
+		if !ok {
+			specFail("implements(value, <interface type literal>)")
+		}
+		it, _ := env.resolveType(tn.V)
+		if it == nil {
+			specFail("implements: unknown type %s", tn.V)
+		}
+		key := "impl_" + smtName(types.TypeString(it, nil))
+		vc.declareFun(key, []*Sort{sortInt}, sortBool)
+		a := arg(0).V
+		return SV{And(Not(Eq(ifaceTag(a), IntLit(0))), App(sortBool, key, ifaceTag(a))), types.Typ[types.Bool]}
 	case "kvsum":
 		return SV{vc.kvSum(env.st), ti}
 	case "txncount":
